@@ -298,6 +298,18 @@ func (c *Case) applyCtrlDeliver(m *specqbft.SignedMessage) ctrlResult {
 	r := c.ctrlDeliver(c.ctrl, c.rc, m)
 	c.emit(line, r.line())
 	c.c07AfterDeliver(pre07, m, r)
+	if inst := c.ctrl.StoredInstances.FindInstance(c.height); inst != nil && inst.State.ProposalAcceptedForCurrentRound != nil {
+		// mechanism of the known compaction finding: a SECOND, different proposal accepted for a round (the first-proposal
+		// record was compacted away and a decided message lowered the round)
+		acc := inst.State.ProposalAcceptedForCurrentRound
+		if c.acceptedByRound == nil {
+			c.acceptedByRound = map[specqbft.Round][32]byte{}
+		}
+		if prev, ok := c.acceptedByRound[acc.Message.Round]; ok && prev != acc.Message.Root {
+			c.secondProposal = true
+		}
+		c.acceptedByRound[acc.Message.Round] = acc.Message.Root
+	}
 	if c.c02 {
 		c.c02Check("cdeliver", m, r, before)
 	}
